@@ -44,6 +44,21 @@ PROPS["C16"] = {
     "assumptions": ["extensions are compared as multisets", "nomination values >= 2^24 are outside the statement"],
 }
 
+PROPS["C19"] = {
+    "parts": [part("TestVerifC19", q=8, t=16)],
+    "level": "exploration",
+    "engine": "E7 refmodel",
+    "technique": "reference-model monitor: generated rule lists x all lookup keys of small pools, real mapper vs an independent implementation of the documented precedence; constructor-validity oracle; three construction paths",
+    "level_text": "Seeded rule lists (0-6 rules over 3 interfaces, 4 CIDRs, 6 local and 6 external v4/v6 addresses, 3 modes, 4 candidate types, network restrictions) are compiled by the real "
+                  "newAddressRewriteMapper (and, for lists that qualify, by WithAddressRewriteRules and the legacy NAT1To1IPs path through NewAgent); all 96 lookup keys "
+                  "(3 types x 8 local IPs x 4 interface names) are compared with a reference of the documented precedence on (matched, mode, ordered external IPs); invalid lists must be rejected.",
+    "level_note": "Sampled rule lists, exhaustive over lookup keys of the pools. Not generated (ambiguous, DESIGN 6): catch-all rules whose CIDR family differs from their externals' family, "
+                  "family-restricted rules whose externals are all of the other family, empty External through the public option. End-to-end use during gathering is covered under C18.",
+    "rule": "case = one rule list (PRNG from VERIF_SEED, run index) evaluated on 96 lookup keys; distinct_nontrivial counts distinct rule-list shapes "
+            "(per rule: has Local/Iface/CIDR/Networks, #externals, effective mode) plus invalid-kind and legacy-list classes",
+    "assumptions": ["'first explicit Local match' and 'most specific catch-all, declaration order on ties' as stated in the property and the WithAddressRewriteRules doc comment"],
+}
+
 ENGINES = [
     {"name": "E7 refmodel", "path": "harness/ice/vfc16.go, vfc17.go, vfc19.go", "serves_properties": ["C16", "C17", "C19"],
      "kind_free_text": "seeded/exhaustive generators + independent reference implementations evaluated in-process on the real functions"},
